@@ -17,11 +17,12 @@ import (
 // SQLCase: a query given as a tree (with print options) or as a token sequence,
 // and a default field.
 type SQLCase struct {
-	Tree *gen.Node `json:"tree,omitempty"`
-	Opts gen.Opts  `json:"opts"`
-	Toks []gen.Tok `json:"toks,omitempty"`
-	DF   string    `json:"df"`
-	Text string    `json:"text,omitempty"`
+	Tree  *gen.Node `json:"tree,omitempty"`
+	Opts  gen.Opts  `json:"opts"`
+	Toks  []gen.Tok `json:"toks,omitempty"`
+	DF    string    `json:"df"`
+	Text  string    `json:"text,omitempty"`
+	Tight bool      `json:"tight,omitempty"` // token sequence written without optional whitespace
 }
 
 func (c SQLCase) toks() []gen.Tok {
@@ -34,6 +35,9 @@ func (c SQLCase) toks() []gen.Tok {
 func (c SQLCase) text() string {
 	if c.Tree != nil {
 		return gen.Text(c.Tree, c.Opts)
+	}
+	if c.Tight {
+		return gen.Join(c.Toks, gen.Opts{Fill: []string{""}})
 	}
 	return gen.JoinSpace(c.Toks)
 }
@@ -247,6 +251,47 @@ func TestC02(t *testing.T) {
 		run("enum-full", SQLCase{Toks: cp})
 		run("enum-full", SQLCase{Toks: cp, DF: "x;y"})
 	})
+
+	// (query, default field) pairs cut from one text at different colons, rendered
+	// one after the other in the same process: a result must depend on its own
+	// arguments only (aims at caches and other state keyed on concatenations)
+	st.Stream("colon-splits", true, "all words w1:...:wk (k = 2..4) over {a, b, c} x every split into (default field, query) at a colon, all splits of one text rendered back to back, both orders")
+	words := []string{"a", "b", "c"}
+	var tuples [][]string
+	var build func(cur []string, k int)
+	build = func(cur []string, k int) {
+		if len(cur) == k {
+			tuples = append(tuples, append([]string(nil), cur...))
+			return
+		}
+		for _, w := range words {
+			build(append(cur, w), k)
+		}
+	}
+	for k := 2; k <= 4; k++ {
+		build(nil, k)
+	}
+	for ti, tu := range tuples {
+		if ti%cfg.NShards != cfg.Shard {
+			continue
+		}
+		mk := func(split int) SQLCase {
+			var toks []gen.Tok
+			for i, w := range tu[split:] {
+				if i > 0 {
+					toks = append(toks, gen.Sym(":"))
+				}
+				toks = append(toks, gen.Term(gen.Word(w)))
+			}
+			return SQLCase{Toks: toks, DF: strings.Join(tu[:split], ":"), Tight: true}
+		}
+		for split := 0; split < len(tu); split++ {
+			run("colon-splits", mk(split))
+		}
+		for split := len(tu) - 1; split >= 0; split-- {
+			run("colon-splits", mk(split))
+		}
+	}
 
 	tcfg := gen.ParseCfg
 	tcfg.Boost, tcfg.Fuzzy = false, false
